@@ -84,3 +84,98 @@ def run(F, inv, summaries, only=None):
     ctx = mp.get_context("fork")
     with ctx.Pool(min(6, len(names) or 1)) as pool:
         return pool.map(check_inst, names, chunksize=1)
+
+
+# ------------------------------------------------------------------------------------------------------------------
+# entry points: `write`, `write_to_vec` and `write_to_slice` of a final builder step differ only in the writer - they hand
+# the *same builder state* and payload to `final_write_with_net` (which the size rule and C08/C09/C12 then cover).
+
+ENTRY = ("write", "write_to_vec", "write_to_slice")
+
+
+def check_entry(nm):
+    from .rules_rt import merge_states
+    F = _F
+    S = Sib(F, _INV, _SUMM, depth=3, budget=300000)
+    t0 = time.time()
+    r = {"rule": "entry", "what": nm, "sp": "", "problems": [], "paths": 0}
+    try:
+        # PacketBuilderStep<X> -> method prefix packet_builder::PacketBuilderStep::<X>::
+        inner = nm[nm.index("<") + 1:-1]
+        pre = "packet_builder::PacketBuilderStep::<%s>::" % inner
+        fns = [F.bodies.get(pre + e) for e in ENTRY]
+        if any(f is None for f in fns):
+            r["problems"].append("entry points not found for %s" % nm)
+            return r
+        r["sp"] = fns[0]["span"]
+        I0 = S.interp()
+        st0 = State()
+        b = I0.materialize(st0, fns[0]["locals"][1][0], ("en", 0))
+        I0.assume_invariant(st0, nm, b.key)
+        shared = {}
+        runs = []
+        for f in fns:
+            I = S.interp()
+            I.opts.update({"stop_calls": frozenset((FW,)), "len_sim": True})
+            st = st0.fork()
+            args = [b]
+            for i in range(1, f["arg_count"]):
+                ty = f["locals"][i + 1][0]
+                ts = I.tstr(ty)
+                # the writer / buffer (argument 1) is private to the entry point; later arguments (ip number,
+                # payload) are the same values for all three
+                if i >= 2:
+                    if (i, ts) not in shared:
+                        shared[(i, ts)] = I0.materialize(st0, ty, ("en", i))
+                        st = st0.fork()
+                    args.append(shared[(i, ts)])
+                else:
+                    args.append(I.materialize(st, ty, ("enw", f["path"], i)))
+            fin, probs, I = S.run(f, st, args, I)
+            r["problems"] += probs
+            got = []
+            for (s1, rv) in fin:
+                sp_ = [x for x in (s1.notes.get("stopped") or ()) if x[0] == FW]
+                if s1.feasible() and sp_:
+                    got.append((s1, sp_[0][1], I))
+            if not got:
+                r["problems"].append("%s never reaches final_write_with_net" % f["path"].rsplit("::", 1)[1])
+            runs.append(got)
+        base = runs[0]
+        for k in (1, 2):
+            for (sa, aa, Ia) in base:
+                for (sb, ab, Ib) in runs[k]:
+                    s = merge_states(sa, sb)
+                    if s is None:
+                        continue
+                    r["paths"] += 1
+                    for d in S.eq(Ib, s, aa[0], ab[0], "builder"):
+                        r["problems"].append("%s and %s hand different builder states to final_write_with_net: %s" % (
+                            ENTRY[0], ENTRY[k], d))
+                    for d in S.eq(Ib, s, aa[2], ab[2], "payload"):
+                        r["problems"].append("%s and %s hand different payloads to final_write_with_net: %s" % (
+                            ENTRY[0], ENTRY[k], d))
+                    if len(r["problems"]) > 4:
+                        break
+                if len(r["problems"]) > 4:
+                    break
+    except Exception:
+        import traceback
+        r["problems"].append("crash: " + " | ".join(traceback.format_exc().strip().splitlines()[-2:]))
+    r["problems"] = list(dict.fromkeys(r["problems"]))[:4]
+    r["time"] = time.time() - t0
+    return r
+
+
+def run_entry(F, inv, summaries, only=None):
+    global _F, _INV, _SUMM
+    _F, _INV, _SUMM = F, inv, summaries
+    from .absint import Interp
+    from .models import M
+    I = Interp(F, M, inv)
+    names = sorted(n for n in I.typestate_flows().get((FW, 0), ()) if n)
+    if only:
+        names = [n for n in names if only in n]
+    ctx = mp.get_context("fork")
+    with ctx.Pool(min(6, len(names) or 1)) as pool:
+        return pool.map(check_entry, names, chunksize=1)
